@@ -6,6 +6,8 @@ import ZCV.Model.Conv
 import ZCV.Model.Schemaless
 import ZCV.Spec.Grammar
 import ZCV.Spec.Registry
+import ZCV.Spec.Tree
+import ZCV.Model.TreeLoad
 /-! Line-protocol driver: one request per line, one answer per line. Imports Spec + Model + Gen only. -/
 open ZCV ZCV.SExp ZCV.Codec ZCV.Cfg
 
@@ -84,6 +86,33 @@ def handle (st : DState) : SExp → DState × SExp
                           .list (r.handlers.map fun (h, v) => .list [.str h, encVal v]), encAbstract r.schemaAfter]
         | .error f => encFail f
       | _, _, _, _, _, _ => .list [.atom "bad-request", .atom "load"])
+  -- (loadspec schema resources resolve env topurl (lines…)) → (parse-reject) | (reject) | (accept val) | (unsupported)
+  | .list [.atom "loadspec", sch, .list res, .list rsv, .list env, url, .list lines] =>
+    (st, match decSchema sch, decResources res, decResolve rsv, lines.mapM getStr? with
+      | some sc, some rs, some rv, some ls =>
+        let e : Env := { res := rs, resolve := rv, getenv := decEnv env }
+        match Conf.treeOf e (optStr url) ls with
+        | .error (.cfg _) => .list [.atom "parse-reject"]
+        | .error _ => .list [.atom "unsupported"]
+        | .ok items =>
+          match Conf.denote stockConv sc items with
+          | some v => .list [.atom "accept", encVal v]
+          | none => .list [.atom "reject"]
+      | _, _, _, _ => .list [.atom "bad-request", .atom "loadspec"])
+  -- (schemaok schema) → t/f
+  | .list [.atom "schemaok", sch] =>
+    (st, match decSchema sch with | some sc => ofBool (Conf.schemaOK sc) | none => .atom "bad-request")
+  -- (treeload schema env (lines…)) → (tycanon loadTree-outcome denote-outcome)   [no includes, no imports]
+  | .list [.atom "treeload", sch, .list env, .list lines] =>
+    (st, match decSchema sch, lines.mapM getStr? with
+      | some sc, some ls =>
+        let e : Env := { noEnv with getenv := decEnv env }
+        (match Conf.treeOf e none ls with
+         | .ok items => .list [ofBool (Conf.tyCanon sc items),
+                               (match Conf.loadTree stockConv sc items with | .ok v => .list [.atom "ok", encVal v] | .error f => encFail f),
+                               (match Conf.denote stockConv sc items with | some v => .list [.atom "some", encVal v] | none => .atom "none")]
+         | .error _ => .atom "parse-reject")
+      | _, _ => .atom "bad-request")
   -- (conv "datatype" "text") → (ok val) | (err kind)
   | .list [.atom "conv", .str dt, .str s] =>
     (st, .list [encConv (stockVal dt s), match DTSpec.byName dt s with | some r => encConv r | none => .atom "nospec"])
